@@ -413,6 +413,50 @@ theorem C02.discr_one_inner_with_tolerance (close1 : ℝ → Bool) (axes : List 
   rw [← htot, Finset.mul_sum]
   simp
 
+/-- Every norm of the model is a LATTICE norm: if `|xᵢ| ≤ |yᵢ|` for every entry (of every leaf
+of the tree) then `‖x‖ ≤ ‖y‖` — all space kinds, all weighting kinds with positive weights, all
+exponent branches (1, 2, ∞, generic p > 0). -/
+theorem C02.norm_mono (close1 : ℝ → Bool) (s : Space ℝ) (hs : SpacePos s)
+    (he : AllExpo ExpoPos s) (x y : El 𝕜) (hx : Shaped s x) (hy : Shaped s y)
+    (hle : ModLe s x y) :
+    Space.norm (ops 𝕜) (roots close1) s x ≤ Space.norm (ops 𝕜) (roots close1) s y := by
+  induction s generalizing x y with
+  | tens n w p =>
+    cases x with
+    | tup => simp [Shaped] at hx
+    | vec x =>
+    cases y with
+    | tup => simp [Shaped] at hy
+    | vec y =>
+      simp only [Space.norm, tNorm_eq_wpn close1 w n hs p he]
+      exact wpn_mono n _ (fun i hi => (hs i hi).le) p he _ _ (fun _ _ => _root_.norm_nonneg _) hle
+  | discr u axes w p =>
+    cases x with
+    | tup => simp [Shaped] at hx
+    | vec x =>
+    cases y with
+    | tup => simp [Shaped] at hy
+    | vec y =>
+      simp only [Space.norm, dNorm_eq_wpn close1 u axes w hs.1 hs.2 p he]
+      exact wpn_mono _ _ (fun i hi => (dW_pos close1 u axes w p hs.1 hs.2 i hi).le) p he _ _
+        (fun _ _ => _root_.norm_nonneg _) hle
+  | prod m w p comp ih =>
+    cases x with
+    | vec => simp [Shaped] at hx
+    | tup xs =>
+    cases y with
+    | vec => simp [Shaped] at hy
+    | tup ys =>
+      simp only [Shaped] at hx hy
+      simp only [ModLe] at hle
+      simp only [Space.norm, pNorm_eq_wpn close1 w m hs.1 p he.1]
+      refine wpn_mono m _ (fun i hi => (hs.1 i hi).le) p he.1 _ _ (fun _ _ => abs_nonneg _)
+        (fun k hk => ?_)
+      have h0 := norm_nonneg_tree (𝕜 := 𝕜) close1 (comp k) (hs.2 k hk) (he.2 k hk) _ (hx k)
+      have h1 := norm_nonneg_tree (𝕜 := 𝕜) close1 (comp k) (hs.2 k hk) (he.2 k hk) _ (hy k)
+      rw [abs_of_nonneg h0, abs_of_nonneg h1]
+      exact ih k (hs.2 k hk) (he.2 k hk) (xs k) (ys k) (hx k) (hy k) (hle k hk)
+
 /-- Every norm branch of the model (`sqrt(c)·nrm2`, `c^{1/p}·‖·‖ₚ`, `c·max`, in-place
 `|x|^p·w` sums, boundary scaling by `frac^{1/p}`, norms of component norms) is ONE weighted
 p-norm: of the moduli of the entries with the quadrature weights `twFn w` / `dW` (tensor /
@@ -489,6 +533,14 @@ example : Tol (fun r => decide (|r - 1| ≤ 1 / 100000)) (1 / 100000) ∧
     norm_num at this
   · simp only [List.mem_singleton] at ha; subst ha; norm_num
   · norm_num [axisTotalTol, abs_le]
+
+/-- hypothesis of `norm_mono` on the concrete product space: `x/2` is dominated by `x` -/
+example : ModLe exSpace (exEl.smul (1 / 2)) exEl := by
+  intro k _
+  by_cases h : k = 0 <;>
+    simp only [exSpace, exEl, El.smul, h, ↓reduceIte, ModLe] <;>
+    intro i _ <;> rw [norm_mul] <;>
+    exact mul_le_of_le_one_left (_root_.norm_nonneg _) (by norm_num)
 
 /-- hypotheses of the tensor-space statements: weights `(1, 2, 3)` -/
 example : twPos (.arr fun i => (i : ℝ) + 1) 3 := fun i _ => by simp only [twFn]; positivity
